@@ -23,6 +23,8 @@ class Function:
         self.node = node
         self.name = node.name
         self.qual = (cls + "." if cls else "") + node.name
+        if any(ast.unparse(d).endswith(".setter") for d in node.decorator_list):
+            self.qual += "@setter"
         seg = ast.get_source_segment(text, node) or ""
         self.segment = seg
         self.sha256 = hashlib.sha256(seg.encode()).hexdigest()
